@@ -295,11 +295,13 @@ fn gen_tokens(src: &str) -> (String, bool) {
 pub fn c18_cases() -> Vec<(String, Vec<String>)> {
     // (description, sources in all orders; first = canonical)
     let mut cases = vec![];
+    let callbacks = ["cb", "|lex| lex.slice().len() < 3", "|lex| lex.slice().parse::<u32>().ok()", "|lex| { let (a, b) = (1, lex.slice().len()); a << 1 <= b }", "path::to::cb"];
     for (attr, lit, greedy_ok) in [("token", "\"ab\"", false), ("regex", "\"a.*b\"", true), ("skip", "\"a.*b\"", true)] {
+      for cbv in callbacks {
         for positional in [false, true] {
             let mut named = vec!["priority = 7".to_string(), "ignore(case)".to_string()];
             if !positional {
-                named.push("callback = cb".into());
+                named.push(format!("callback = {cbv}"));
             }
             if greedy_ok {
                 named.push("allow_greedy = true".into());
@@ -314,7 +316,7 @@ pub fn c18_cases() -> Vec<(String, Vec<String>)> {
                 for p in permutations(&sub) {
                     let mut args = vec![lit.to_string()];
                     if positional {
-                        args.push("cb".into());
+                        args.push(cbv.to_string());
                     }
                     args.extend(p);
                     let args = args.join(", ");
@@ -328,6 +330,7 @@ pub fn c18_cases() -> Vec<(String, Vec<String>)> {
                 cases.push((format!("{attr} positional_cb={positional} args={sub:?}"), sources));
             }
         }
+      }
     }
     // combined #[logos(...)]
     let items: Vec<(&str, &str)> = vec![
@@ -372,6 +375,115 @@ pub fn c18_cases() -> Vec<(String, Vec<String>)> {
     cases
 }
 
+/// canonical form of a captured graph: BFS numbering from the root over edges sorted by byte
+/// range, leaves named by their display string (so that renumbered leaves / states compare equal)
+fn canon_graph(g: &vcore::graph::Graph) -> String {
+    let mut order: Vec<usize> = vec![g.root];
+    let mut idx = std::collections::HashMap::new();
+    idx.insert(g.root, 0usize);
+    let mut out = String::new();
+    let mut i = 0;
+    let leaf = |l: Option<usize>| l.map(|x| format!("{}@{}", g.leaves[x].display, g.leaves[x].priority)).unwrap_or_default();
+    while i < order.len() {
+        let s = order[i];
+        let st = &g.states[s];
+        let mut edges: Vec<(Vec<(u8, u8)>, usize)> = st.normal.clone();
+        edges.sort();
+        out.push_str(&format!("[{}|{}|", leaf(st.accept), leaf(st.early)));
+        for (rs, t) in edges {
+            let n = *idx.entry(t).or_insert_with(|| {
+                order.push(t);
+                order.len() - 1
+            });
+            out.push_str(&format!("{rs:?}->{n};"));
+        }
+        if let Some(t) = st.eoi {
+            let n = *idx.entry(t).or_insert_with(|| {
+                order.push(t);
+                order.len() - 1
+            });
+            out.push_str(&format!("$->{n}"));
+        }
+        out.push(']');
+        i += 1;
+    }
+    out
+}
+
+/// (accepted, canonical graph) - equivalence of lexers whose leaves are numbered differently
+fn gen_equiv(src: &str) -> (bool, String) {
+    let g = vdrive::generate(src, false);
+    (g.observed.accepted, g.observed.graph.as_ref().map(canon_graph).unwrap_or_else(|| format!("no graph: {:?}", g.observed.errors.first())))
+}
+
+/// #[logos(...)] items including SEVERAL skips: every permutation must be accepted alike and give
+/// an equivalent lexer (canonical graphs equal), although leaves are numbered in written order
+pub fn c18_skip_cases() -> Vec<(String, Vec<String>)> {
+    let skips: Vec<Vec<&str>> = vec![
+        vec!["skip(\"i[a-z]\", priority = 1)", "skip(\"[a-z]f\", priority = 1)", "skip(\"if\", priority = 5)"],
+        vec!["skip(\"a+\", priority = 2)", "skip(\"[ab]+\", priority = 2)", "skip(\"ab\", priority = 9)"],
+        vec!["skip \" +\"", "skip(\"[ \\t]\", priority = 1)", "skip(\"\\t\", priority = 7)", "extras = u8"],
+        vec!["skip(\"x\", priority = 3)", "skip(\"[xy]\", priority = 1)", "skip(\"x|y\", priority = 2)", "utf8 = false"],
+        vec!["skip \"a\"", "skip \"b\"", "skip(\"[ab]c\")", "error = E"],
+        vec!["skip(\"k\", ignore(case))", "skip(\"K\", priority = 9)", "subpattern d = \"[0-9]\"", "skip(\"(?&d)+\")"],
+    ];
+    let mut cases = vec![];
+    for set in skips {
+        let mut sources = vec![];
+        for p in permutations(&set) {
+            // a subpattern must stay before its use
+            let pd = p.iter().position(|x| x.starts_with("subpattern d"));
+            let pu = p.iter().position(|x| x.contains("(?&d)"));
+            if let (Some(pd), Some(pu)) = (pd, pu) {
+                if pd > pu {
+                    continue;
+                }
+            }
+            sources.push(format!("#[logos({})] enum T {{ #[token(\"zz\")] Z, #[regex(\"[a-z]{{3}}\", priority = 4)] W }}", p.join(", ")));
+            // also split over several attributes
+            sources.push(format!("{} enum T {{ #[token(\"zz\")] Z, #[regex(\"[a-z]{{3}}\", priority = 4)] W }}", p.iter().map(|x| format!("#[logos({x})]")).collect::<Vec<_>>().join(" ")));
+        }
+        cases.push((format!("logos items with several skips {set:?}"), sources));
+    }
+    cases
+}
+
+/// generic enums: `type T = ..` and `lifetime = ..` items in every order
+pub fn c18_generic_cases() -> Vec<(String, Vec<String>)> {
+    let sets: Vec<Vec<&str>> = vec![
+        vec!["type T = &'a str", "lifetime = 'a"],
+        vec!["type T = &'a str", "lifetime = 'a", "extras = u8", "skip \" \""],
+        vec!["type T = u8", "type U = &'s str", "error = E"],
+        vec!["lifetime = 'a", "extras = &'a str", "type T = Vec<&'a str>"],
+    ];
+    let mut cases = vec![];
+    for set in sets {
+        let generics = if set.iter().any(|x| x.starts_with("type U")) { "<'s, T, U>" } else { "<'a, T>" };
+        let body = if generics.contains('U') { "#[regex(\"a+\", cb)] A(T), #[regex(\"b+\")] B(U)" } else { "#[regex(\"a+\")] A(T), #[token(\"b\")] B" };
+        let sources: Vec<String> = permutations(&set).into_iter().map(|p| format!("#[logos({})] enum Tok{generics} {{ {body} }}", p.join(", "))).collect();
+        cases.push((format!("generic enum items {set:?}"), sources));
+    }
+    cases
+}
+
+fn c18_eval_equiv(desc: &str, sources: &[String]) -> (u64, u64, Vec<Violation>) {
+    let canon = gen_equiv(&sources[0]);
+    let mut v = vec![];
+    for (i, s) in sources.iter().enumerate().skip(1) {
+        let g = gen_equiv(s);
+        if g != canon && v.len() < 3 {
+            v.push(viol(
+                "ORDER-SENSITIVE",
+                "c18",
+                format!("{desc} #{i}"),
+                format!("canonical order accepted={}, this order accepted={}; the lexers are not equivalent. canonical: {} | this: {}", canon.0, g.0, sources[0], s),
+                json!({"sources": [sources[0], s], "equiv": true}),
+            ));
+        }
+    }
+    (sources.len() as u64, sources.len() as u64 - 1, v)
+}
+
 fn c18_eval(desc: &str, sources: &[String]) -> (u64, u64, Vec<Violation>) {
     let (canon, canon_acc) = gen_tokens(&sources[0]);
     let mut v = vec![];
@@ -394,9 +506,12 @@ fn c18_eval(desc: &str, sources: &[String]) -> (u64, u64, Vec<Violation>) {
 
 pub fn c18(a: &Args) -> Report {
     let mut rep = Report::new(&a.prop, "vgraph c18", &a.tier_name);
-    rep.bounds.insert("rule".into(), "every subset (size >= 2) of the named arguments {priority, callback, ignore(case), allow_greedy} of #[token] / #[regex] / skip(...), with and without a positional callback, in every permutation; every sub-multiset (2..=5 items) of the #[logos(...)] items {skip, skip(..), extras, error, error(..), utf8, crate, subpattern a, subpattern b(uses a)} in every permutation that keeps a before b. A case is non-trivial when its order differs from the canonical (first) order. Oracle: generate()'s token string equals that of the canonical order.".into());
-    let cases = c18_cases();
-    let outs: Vec<(u64, u64, Vec<Violation>)> = cases.par_iter().map(|(d, s)| c18_eval(d, s)).collect();
+    rep.bounds.insert("rule".into(), "every subset (size >= 2) of the named arguments {priority, callback, ignore(case), allow_greedy} of #[token] / #[regex] / skip(...), with and without a positional callback, in every permutation; every sub-multiset (2..=5 items) of the #[logos(...)] items {skip, skip(..), extras, error, error(..), utf8, crate, subpattern a, subpattern b(uses a)} in every permutation that keeps a before b; 6 item sets with SEVERAL skips (equal and unequal priorities) in every permutation, in one attribute and split over several, compared by acceptance + canonical graph (leaves renumber); callback values with `<`, `<<`, turbofish and commas inside braces. A case is non-trivial when its order differs from the canonical (first) order. Oracle: generate()'s token string equals that of the canonical order.".into());
+    let mut cases = c18_cases();
+    cases.extend(c18_generic_cases());
+    let n_text = cases.len();
+    cases.extend(c18_skip_cases());
+    let outs: Vec<(u64, u64, Vec<Violation>)> = cases.par_iter().enumerate().map(|(i, (d, s))| if i < n_text { c18_eval(d, s) } else { c18_eval_equiv(d, s) }).collect();
     for ((d, s), (n, nt, v)) in cases.iter().zip(outs) {
         rep.count("evaluations", n);
         rep.count("distinct_nontrivial", nt);
@@ -649,7 +764,8 @@ pub fn replay(a: &Args, rec: &serde_json::Value) -> Report {
         }
         "c18" => {
             let s: Vec<String> = serde_json::from_value(r["sources"].clone()).expect("sources");
-            if gen_tokens(&s[0]).0 != gen_tokens(&s[1]).0 {
+            let differ = if r["equiv"].as_bool() == Some(true) { gen_equiv(&s[0]) != gen_equiv(&s[1]) } else { gen_tokens(&s[0]).0 != gen_tokens(&s[1]).0 };
+            if differ {
                 rep.violations.push(viol(tag, "c18", s[1].clone(), "outputs differ between the two orders".into(), json!({})));
             }
         }
